@@ -204,6 +204,10 @@ def run(s):
         from vf import lean
         s.oblige("C13.lemmas.FiniteSums(lean)", lambda: lean.check_file("lemmas/FiniteSums.lean"), ["lemmas/FiniteSums.lean (sum rules: linearity, congruence, combination, "
                                                                                                      "positivity, permutation, weight scaling)"])
+    # re-ordering q-points and modes commutes with the mode interpolation because every (q, m) slot is interpolated on its own, from its own column, into its own slot,
+    # whatever the weights are: C11's dispatch obligation (mode_gamma.py, outside this property's anchored files), registered here as well
+    from props import C11
+    C11.run(core.SubSession(s, lambda n: n.replace("C11.", "C13.mode_interpolation."), lambda n: n == "C11.dispatch_no_mixing"))
     s.min_obligations = 8
 
 
